@@ -14,10 +14,20 @@ import AdaptixProofs.Lemmas.LayoutLoadPaths
 import AdaptixProofs.Lemmas.LayoutDump
 import AdaptixProofs.Lemmas.LayoutRoundTrip
 import AdaptixProofs.Lemmas.LayoutPlacement
+import AdaptixProofs.Lemmas.LayoutDumpExtra
+import AdaptixProofs.Lemmas.LayoutWitness
 
 namespace Adaptix.Layout.C03
 
 open Adaptix.Layout
+open Adaptix.Layout.Witness
+
+/-! Non-vacuity.  Every theorem with hypotheses is followed by a `…_witness` theorem or an `example` that
+    *applies it* to the concrete programs of `Lemmas/LayoutWitness.lean` (five fields, a nested path, two list
+    gaps, a skipped field, an omitted default, non-identity field codecs), with every hypothesis discharged —
+    so the hypotheses are satisfiable together on non-degenerate data.  In particular `wInp_ok` / `wOut_ok`
+    *prove* that the provider model returns a layout for that program (the hypothesis of the end-to-end
+    theorems), and `wOut_wf` that the built output crown is well formed. -/
 
 /-! ## 1. Which path the rules assign to a field -/
 
@@ -60,6 +70,14 @@ theorem map_over_style (dir : Dir) (sch : Schema) (style style' : Style → Stri
         | ellipsis => exact absurd rfl (hraw _ hr)
         | key k => rfl
 
+/-- witness: `a ↦ ("x", 1)` keeps its path under another style, trim flag, as_list flag and style function -/
+example : pathOf .inp wSch wStyle wFields [] { id := "a" } = some [.s "x", .i 1] ∧
+    pathOf .inp wSch wStyle wFields [] { id := "a" } =
+      pathOf .inp { wSch with style := some "upper", trim := false, asList := true } (fun _ s => s ++ "!") wFields []
+        { id := "a" } :=
+  ⟨rfl, map_over_style .inp wSch wStyle (fun _ s => s ++ "!") wFields [] { id := "a" }
+    [.key (.s "x"), .key (.i 1)] (some "upper") false true rfl (by decide)⟩
+
 /-- **skip > only**: a field matched by `skip` is not presented, whatever `only` and `map` say. -/
 theorem skip_over_only (dir : Dir) (sch : Schema) (style : Style → String → String) (fields : List Field)
     (targets : List String) (f : Field) (hskip : sch.skip f = true) :
@@ -67,12 +85,18 @@ theorem skip_over_only (dir : Dir) (sch : Schema) (style : Style → String → 
   unfold pathOf
   simp [hskip]
 
+example : pathOf .inp wSch wStyle wFields [] { id := "secret", required := false } = none :=
+  skip_over_only .inp wSch wStyle wFields [] _ rfl
+
 /-- a field not matched by `only` is not presented -/
 theorem only_filters (dir : Dir) (sch : Schema) (style : Style → String → String) (fields : List Field)
     (targets : List String) (f : Field) (honly : sch.only f = false) :
     pathOf dir sch style fields targets f = none := by
   unfold pathOf
   simp [honly]
+
+example : pathOf .out { wSch with only := fun f => f.id != "b" } wStyle wFields [] { id := "b" } = none :=
+  only_filters .out _ wStyle wFields [] _ rfl
 
 /-- **first matching map entry wins**: entries after the first one that answers are never consulted -/
 theorem first_map_entry_wins (dir : Dir) (f : Field) (pre post : List MapEntry) (e : MapEntry) (r : MapResult)
@@ -84,6 +108,13 @@ theorem first_map_entry_wins (dir : Dir) (f : Field) (pre post : List MapEntry) 
     have hx : x.apply dir f = none := hpre x (by simp)
     simp only [List.cons_append, lookupMap, hx]
     exact ih fun y hy => hpre y (by simp [hy])
+
+/-- witness: two entries that do not answer, then two that do -/
+example : lookupMap .inp { id := "b" }
+    ([MapEntry.dict [("a", some [.key (.s "A")])], .const (fun f => f.id == "zz") none] ++
+      MapEntry.const (fun f => f.id == "b") (some [.key (.s "B1")]) ::
+      [.dict [("b", some [.key (.s "B2")])]]) = some (some [.key (.s "B1")]) :=
+  first_map_entry_wins .inp _ _ _ _ _ (by intro x hx; simp at hx; rcases hx with rfl | rfl <;> rfl) rfl
 
 /-- a `None` map result skips the field even if `only` matches it -/
 theorem map_none_skips (dir : Dir) (sch : Schema) (style : Style → String → String) (fields : List Field)
@@ -97,6 +128,10 @@ theorem map_none_skips (dir : Dir) (sch : Schema) (style : Style → String → 
   · split
     · rfl
     · split <;> rfl
+
+example : pathOf .out { wSch with map := [.dict [("a", some [.key (.s "A")]), ("b", none)]] } wStyle wFields []
+    { id := "b" } = none :=
+  map_none_skips .out _ wStyle wFields [] _ rfl
 
 /-! ## 2. Merging of `name_mapping` providers -/
 
@@ -119,6 +154,17 @@ theorem earlier_provider_overrides (ov nxt : Overlay) (rest : List OverlayProv)
     (ov.extraOut = none → (nxt.merge ov).extraOut = nxt.extraOut) := by
   refine ⟨by simp [provideOverlay, hrest], rfl, ?_, ?_, ?_, ?_, ?_, ?_, ?_, ?_, ?_, ?_⟩ <;>
     intros <;> simp_all [Overlay.merge]
+
+/-- witness: two providers that both set `style` and `map`, each setting parameters the other omits -/
+example :
+    let ovA : Overlay := { style := some (some "camel"), map := [.dict [("a", some [.key (.s "A")])]], extraIn := some .forbid }
+    let ovB : Overlay := { style := some none, trim := some true, map := [.dict [("a", some [.key (.s "other")])]],
+                           asList := some false }
+    provideOverlay [⟨some .first, ovA⟩, ⟨none, ovB⟩] = some (ovB.merge ovA) ∧
+      (ovB.merge ovA).style = some (some "camel") ∧ (ovB.merge ovA).trim = some true := by
+  intro ovA ovB
+  have h := earlier_provider_overrides ovA ovB [⟨none, ovB⟩] rfl
+  exact ⟨h.1, h.2.2.2.1 _ rfl, (h.2.2.2.2.2.2.2.1 rfl).trans rfl⟩
 
 /-- the predicates (`skip`, `only`, `omit_default`) follow the same rule -/
 theorem earlier_provider_overrides_preds (ov nxt : Overlay) :
@@ -147,6 +193,14 @@ theorem child_overrides_parent (own : Overlay) (ownProvs parent : List OverlayPr
     (pov.merge own).map = own.map ++ pov.map := by
   refine ⟨by simp [stackParents, hparent], ?_, ?_, ?_, ?_, rfl⟩ <;> intros <;> simp_all [Overlay.merge]
 
+example :
+    let own : Overlay := { style := some (some "camel"), extraIn := some .forbid }
+    let par : Overlay := { style := some none, trim := some true }
+    stackParents own ([⟨none, par⟩] :: []) = par.merge own ∧ (par.merge own).style = some (some "camel") := by
+  intro own par
+  have h := child_overrides_parent own [⟨none, own⟩] [⟨none, par⟩] par [] rfl rfl
+  exact ⟨h.1, h.2.1 _ rfl⟩
+
 /-! ## 3. The crown builder -/
 
 /-- **The input crown has every field at its documented path.**  Whenever the name-layout provider
@@ -166,6 +220,22 @@ theorem crown_places_fields (sch : Schema) (style : Style → String → String)
   obtain ⟨h1, h2⟩ := makeStructure_mem .inp sch style fields _ lv hlv
   exact ⟨fun p id => by rw [hmem, h1], fun p hp => h2 p ((hmem _).mp hp)⟩
 
+/-- **witness**: the provider model does return a layout for the witness program (`wInp_ok`: nested path,
+    two list gaps, trimmed `...` key, a skipped field), and the theorem places `a`, `c_` where the rule says,
+    gives the skipped field no leaf, and the gap leaf a list position. -/
+theorem crown_places_fields_witness :
+    inputLayout wSch wStyle wFields = .ok wInp ∧
+    ([.s "x", .i 1], Leaf.field "a") ∈ wInp.crown.leaves ∧ ([.s "y", .s "c"], Leaf.field "c_") ∈ wInp.crown.leaves ∧
+    (∀ p, (p, Leaf.field "secret") ∉ wInp.crown.leaves) ∧ lastIsIndex [.s "x", .i 2] = true := by
+  have h := crown_places_fields wSch wStyle wFields wInp wInp_ok
+  refine ⟨wInp_ok, (h.1 _ _).mpr ⟨{ id := "a" }, by simp [wFields], rfl, rfl⟩,
+    (h.1 _ _).mpr ⟨{ id := "c_", required := false, default := some (.int 7) }, by simp [wFields], rfl, rfl⟩, ?_,
+    h.2 _ (by simp [wInp, InpCrown.leaves, InpCrown.leaves.goD, InpCrown.leaves.goL])⟩
+  intro p hp
+  obtain ⟨f, hf, hid, hpath⟩ := (h.1 p "secret").mp hp
+  simp only [wFields, List.mem_cons, List.not_mem_nil, or_false] at hf
+  rcases hf with rfl | rfl | rfl | rfl | rfl <;> first | (simp at hid; done) | (cases hpath)
+
 /-- the same for the output crown: **the dumper's crown and the loader's crown use the same rule** -/
 theorem out_crown_places_fields (sch : Schema) (style : Style → String → String) (fields : List Field)
     (l : OutLayout) (h : outputLayout sch style fields = .ok l) :
@@ -176,6 +246,13 @@ theorem out_crown_places_fields (sch : Schema) (style : Style → String → Str
   obtain ⟨lv, hlv, hmem⟩ := outputLayout_inv sch style fields l h
   obtain ⟨h1, h2⟩ := makeStructure_mem .out sch style fields _ lv hlv
   exact ⟨fun p id => by rw [hmem, h1], fun p hp => h2 p ((hmem _).mp hp)⟩
+
+theorem out_crown_places_fields_witness :
+    outputLayout wSch wStyle wFields = .ok wOut ∧
+    ([.s "x", .i 3], Leaf.field "b") ∈ wOut.crown.leaves ∧ ([.s "d"], Leaf.field "d") ∈ wOut.crown.leaves := by
+  have h := out_crown_places_fields wSch wStyle wFields wOut wOut_ok
+  exact ⟨wOut_ok, (h.1 _ _).mpr ⟨{ id := "b" }, by simp [wFields], rfl, rfl⟩,
+    (h.1 _ _).mpr ⟨{ id := "d", required := true, default := some (.int 7) }, by simp [wFields], rfl, rfl⟩⟩
 
 /-! ## 4. The generated loader -/
 
@@ -197,6 +274,16 @@ theorem loadCrown_reads_exact_path (cfg : LoadCfg) (crown : InpCrown) (data : Va
   rw [hargs]
   simpa [ReadsLeaf] using this
 
+/-- **witness** (every debug mode, strict and lax): a present leaf (`a` at `x[1]`, loader `n ↦ n + 1`) and an absent
+    optional leaf (`c_` at `y.c`, default 7) of the layout the provider built -/
+theorem loadCrown_reads_exact_path_witness (mode : DebugTrail) (strict : Bool) :
+    (∃ x, (wLoadCfg mode strict).loader "a" (.int 1) = .ok x ∧ ("a", x) ∈ wArgs) ∧ ("c_", Val.int 7) ∈ wArgs := by
+  have ha := loadCrown_reads_exact_path (wLoadCfg mode strict) wInp.crown wData wArgs none (wLoad_ok mode strict)
+    [.s "x", .i 1] "a" (by simp [wInp, InpCrown.leaves, InpCrown.leaves.goD, InpCrown.leaves.goL])
+  have hc := loadCrown_reads_exact_path (wLoadCfg mode strict) wInp.crown wData wArgs none (wLoad_ok mode strict)
+    [.s "y", .s "c"] "c_" (by simp [wInp, InpCrown.leaves, InpCrown.leaves.goD, InpCrown.leaves.goL])
+  exact ⟨ha.1 (.int 1) rfl, (hc.2 rfl).2 (.int 7) rfl⟩
+
 /-- **End to end, loading**: for a layout produced from a schema, a successful load hands every
     presented field the loaded value found at its *documented* path. -/
 theorem load_reads_documented_path (sch : Schema) (style : Style → String → String) (fields : List Field)
@@ -210,6 +297,11 @@ theorem load_reads_documented_path (sch : Schema) (style : Style → String → 
   have hleaf : (p, Leaf.field f.id) ∈ l.crown.leaves :=
     ((crown_places_fields sch style fields l hl).1 p f.id).mpr ⟨f, hf, rfl, hp⟩
   exact (loadCrown_reads_exact_path cfg l.crown data args extra h p f.id hleaf).1 v hv
+
+theorem load_reads_documented_path_witness (mode : DebugTrail) (strict : Bool) :
+    ∃ x, (wLoadCfg mode strict).loader "b" (.int 2) = .ok x ∧ ("b", x) ∈ wArgs :=
+  load_reads_documented_path wSch wStyle wFields wInp wInp_ok (wLoadCfg mode strict) wData wArgs none
+    (wLoad_ok mode strict) { id := "b" } (by simp [wFields]) [.s "x", .i 3] rfl (.int 2) rfl
 
 /-- **…and from nowhere else**: every argument passed to the constructor is the loaded value found at
     the path of a field leaf, the default of a field whose path is absent, or the extra data handed to
@@ -227,6 +319,9 @@ theorem loadCrown_args_only_from_paths (cfg : LoadCfg) (crown : InpCrown) (data 
   · exact .inl (specArgs_from cfg crown data id x hx)
   · exact .inr hx
 
+example := loadCrown_args_only_from_paths (wLoadCfg .all true) wInp.crown wData wArgs none (wLoad_ok .all true)
+  "c_" (.int 7) (by simp [wArgs])
+
 /-- **An absent required element is never silently accepted**: success implies that the datum has
     the shape the crown asks for (`specOk`): every container of the right kind, every required key /
     item present, every field value accepted by its loader, list lengths and unknown keys within what
@@ -235,6 +330,9 @@ theorem load_success_implies_shape (cfg : LoadCfg) (crown : InpCrown) (data : Va
     (args : List (String × Val)) (extra : Option Val) (h : loadModel cfg crown data = .ok args extra) :
     specOk cfg crown data = true :=
   (loadModel_ok cfg crown data args extra h).1
+
+example : specOk (wLoadCfg .first false) wInp.crown wData = true :=
+  load_success_implies_shape _ _ _ wArgs none (wLoad_ok .first false)
 
 /-- **An absent required key is reported with exactly the missing keys.**  For every flat dict layout
     (all children field leaves), DISABLE or FIRST mode, any extra policy, and every dict datum in which
@@ -275,6 +373,18 @@ theorem missing_required_error_exact (cfg : LoadCfg) (hmode : cfg.mode ≠ .all)
     simp
   rw [hw]
 
+/-- **witness** (any extra policy): two required keys missing, an optional key and an unknown key present -/
+theorem missing_required_error_exact_witness (pol : Policy) :
+    loadModel (fCfg .first .none) (.dict fMap pol) (.dict [("zz", .str "unknown"), ("C", .int 1)]) =
+      .error ⟨[], .noRequiredFields ["A", "B"] (.dict [("zz", .str "unknown"), ("C", .int 1)])⟩ :=
+  missing_required_error_exact (fCfg .first .none) (by decide) fMap pol _ rfl
+    (by
+      intro k id hm v hv
+      simp only [fMap, List.mem_cons, Prod.mk.injEq, InpCrown.field.injEq, List.not_mem_nil, or_false] at hm
+      rcases hm with ⟨rfl, rfl⟩ | ⟨rfl, rfl⟩ | ⟨rfl, rfl⟩ <;> simp [Val.lookup] at hv
+      subst hv; rfl)
+    (by decide)
+
 /-- **debug_trail and the traversal order change only reporting**: two configurations that differ in
     the debug mode only and both succeed pass the same arguments and the same extra data. -/
 theorem load_result_independent_of_debug_trail (cfg : LoadCfg) (m1 m2 : DebugTrail) (crown : InpCrown) (data : Val)
@@ -287,6 +397,9 @@ theorem load_result_independent_of_debug_trail (cfg : LoadCfg) (m1 m2 : DebugTra
   have hT := specTargets_congr { cfg with mode := m1 } { cfg with mode := m2 } rfl rfl crown.policy
     (specExtra crown data) cfg.move.targetIds
   exact ⟨by rw [ha1, ha2, hA]; exact congrArg _ hT, by rw [he1, he2]⟩
+
+example := load_result_independent_of_debug_trail (wLoadCfg .disable true) .first .all wInp.crown wData wArgs wArgs
+  none none (wLoad_ok .first true) (wLoad_ok .all true)
 
 /-! ### unknown keys -/
 
@@ -306,6 +419,16 @@ theorem extra_skip_ignores_unknown (cfg : LoadCfg) (m : List (String × InpCrown
   rw [loadModel_ok_iff, loadModel_ok_iff, hok, hargs, hex]
   simp only [extraOut, hex]
 
+/-- **witness**: two unknown items in the middle of the datum; the load succeeds exactly as without them -/
+theorem extra_skip_ignores_unknown_witness :
+    loadModel (fCfg .all .none) (.dict fMap .skip) (fData fUnknown) =
+      .ok [("a", .int 2), ("b", .int 3), ("c", .int 7)] none := by
+  rw [extra_skip_ignores_unknown (fCfg .all .none) fMap (fData fUnknown) (fData []) rfl rfl
+    (by intro k hk
+        simp only [fMap, knownKeys, List.mem_cons, List.not_mem_nil, or_false] at hk
+        rcases hk with rfl | rfl | rfl <;> rfl)]
+  rfl
+
 /-- adding an unknown key to a dict datum changes nothing the node looks at -/
 theorem unknown_key_invisible (kvs : List (String × Val)) (k k' : String) (v : Val) (hk : k' ≠ k) :
     (Val.dict (kvs ++ [(k, v)])).getItem (.s k') = (Val.dict kvs).getItem (.s k') := by
@@ -322,8 +445,14 @@ theorem extra_forbid_rejects_unknown (cfg : LoadCfg) (m : List (String × InpCro
   simp only [specOk, Bool.and_eq_true, bne_self_eq_false, Bool.false_or, List.isEmpty_iff] at this
   exact this.2
 
-/-- the `ExtraFieldsLoadError` the forbidding policy emits carries exactly the unknown keys of the node
-    and the node's datum, with the node's path as trail (FIRST / ALL) -/
+example : unknownKeys ["d", "x", "y"] wData = [] :=
+  extra_forbid_rejects_unknown (wLoadCfg .disable true) _ wData wArgs none (wLoad_ok .disable true)
+
+/-- the `ExtraFieldsLoadError` the forbidding policy **raises** carries exactly the unknown keys of the node
+    and the node's datum, with the node's path as trail (FIRST; DISABLE has no trail).
+    Audit remark: in ALL mode the fragment never *raises* (it appends to `errors`), so for `cfg.mode = .all`
+    the hypothesis is unsatisfiable and this statement says nothing; the three modes are covered together by
+    `extra_forbid_policy_exact` below, and end to end by `extra_forbid_load_error_exact`. -/
 theorem extra_forbid_error_exact (cfg : LoadCfg) (p : Path) (known : List String) (d : Val)
     (extra : List (String × Val)) (st st' : LState) (e : TErr)
     (h : dictPolicy cfg p .forbid known d extra st = (st', .raised e)) :
@@ -336,6 +465,57 @@ theorem extra_forbid_error_exact (cfg : LoadCfg) (p : Path) (known : List String
   · rename_i hne
     unfold emitThen emit at h
     cases hm : cfg.mode <;> simp [hm, withTrail] at h <;> obtain ⟨_, rfl⟩ := h <;> simp_all
+
+/-- witness (FIRST, a nested node at path `p`) -/
+example := extra_forbid_error_exact (fCfg .first .none) [.s "p"] ["A", "B", "C"] (fData fUnknown) [] {} {}
+  ⟨[.s "p"], .extraFields ["zz", "Yy"] (fData fUnknown)⟩ rfl
+
+/-- **Complete behaviour of the forbidding fragment in the three debug modes** (any node, any state): nothing
+    happens when the datum has no unknown key; otherwise an `ExtraFieldsLoadError` carrying *exactly* the unknown
+    keys and the node's datum is raised (DISABLE: without trail, FIRST: with the node's path) or — ALL —
+    appended to `errors` with the node's path, and the node goes on. -/
+theorem extra_forbid_policy_exact (cfg : LoadCfg) (p : Path) (known : List String) (d : Val)
+    (extra : List (String × Val)) (st : LState) :
+    dictPolicy cfg p .forbid known d extra st =
+      if unknownKeys known d = [] then (st, .ok (.dict extra))
+      else match cfg.mode with
+        | .disable => (st, .raised ⟨[], .extraFields (unknownKeys known d) d⟩)
+        | .first => (st, .raised ⟨p, .extraFields (unknownKeys known d) d⟩)
+        | .all => ({ st with errors := st.errors ++ [⟨p, .extraFields (unknownKeys known d) d⟩] }, .ok (.dict extra)) := by
+  unfold dictPolicy
+  by_cases h : unknownKeys known d = []
+  · simp [h]
+  · simp only [List.isEmpty_iff, h, ↓reduceIte]
+    unfold emitThen emit
+    cases hm : cfg.mode <;> simp [withTrail]
+
+/-- **ExtraForbid, end to end: unknown keys are rejected with exactly the set of unknown keys.**  For every dict
+    layout (nested or flat) under `ExtraForbid` (whose extra move is none, `makeInpExtraMove .forbid = .none`),
+    every debug mode, and every mapping datum that is otherwise acceptable (`specOkDict`: every known element
+    has the shape its crown asks for): if the datum has an unknown key, the generated loader fails with the one
+    `ExtraFieldsLoadError` whose `fields` are exactly the unknown keys (in ALL mode wrapped in the aggregate). -/
+theorem extra_forbid_load_error_exact (cfg : LoadCfg) (hmove : cfg.move = .none) (m : List (String × InpCrown))
+    (data : Val) (hmap : data.isMapping = true) (hok : specOkDict cfg data m = true)
+    (hunk : unknownKeys (knownKeys m) data ≠ []) :
+    loadModel cfg (.dict m .forbid) data =
+      if cfg.mode = .all then .aggregate [⟨[], .extraFields (unknownKeys (knownKeys m) data) data⟩]
+      else .error ⟨[], .extraFields (unknownKeys (knownKeys m) data) data⟩ := by
+  obtain ⟨chk, hch⟩ := loadDictChildren_complete cfg m [] data (requiredKeys cfg m) false false [] {} hok hmap
+  unfold loadModel loadBranch
+  simp only [hch, hmap, Bool.not_true, Bool.and_false, Bool.false_eq_true, ↓reduceIte]
+  rw [extra_forbid_policy_exact]
+  simp only [hunk, ↓reduceIte]
+  cases hm : cfg.mode <;>
+    simp [wrap, hm, hmove, InpExtraMove.targetIds, assignTargets, InpCrown.policy]
+
+/-- witness (ALL mode — the case `extra_forbid_error_exact` does not reach — and FIRST) -/
+theorem extra_forbid_load_error_exact_witness :
+    loadModel (fCfg .all .none) (.dict fMap .forbid) (fData fUnknown) =
+      .aggregate [⟨[], .extraFields ["zz", "Yy"] (fData fUnknown)⟩] ∧
+    loadModel (fCfg .first .none) (.dict fMap .forbid) (fData fUnknown) =
+      .error ⟨[], .extraFields ["zz", "Yy"] (fData fUnknown)⟩ :=
+  ⟨extra_forbid_load_error_exact (fCfg .all .none) rfl fMap (fData fUnknown) rfl rfl (by decide),
+   extra_forbid_load_error_exact (fCfg .first .none) rfl fMap (fData fUnknown) rfl rfl (by decide)⟩
 
 /-- **Collecting policies deliver exactly the unknown items, under their original names**: the extra
     data is the skeleton `specExtra` — for every collecting dict node the items of its datum whose key
@@ -432,6 +612,22 @@ theorem unknownItems_spec (known : List String) (kvs : List (String × Val)) (k 
     (k, v) ∈ unknownItems known (.dict kvs) ↔ (k, v) ∈ kvs ∧ k ∉ known := by
   simp [unknownItems, List.mem_filter]
 
+/-- **witness** (`ExtraKwargs` and `ExtraTargets`, two unknown items): the extra data is exactly the unknown items,
+    handed to `**kwargs` as is and to the target field `kw` through its loader -/
+theorem extra_collect_exact_witness :
+    loadModel (fCfg .first .kwargs) (.dict fMap .collect) (fData fUnknown) =
+      .ok [("a", .int 2), ("b", .int 3), ("c", .int 7)] (some (.dict fUnknown)) ∧
+    Val.dict fUnknown = .dict (unknownItems (knownKeys fMap) (fData fUnknown)) ∧
+    ∃ x, (fCfg .all (.targets ["kw"])).loader "kw" (.dict fUnknown) = .ok x ∧
+      ("kw", x) ∈ [("a", Val.int 2), ("b", .int 3), ("c", .int 7), ("kw", .dict fUnknown)] := by
+  have h : loadModel (fCfg .first .kwargs) (.dict fMap .collect) (fData fUnknown) =
+      .ok [("a", .int 2), ("b", .int 3), ("c", .int 7)] (some (.dict fUnknown)) := rfl
+  refine ⟨h, (extra_collect_exact _ _ _ _ _ h).trans (extra_collect_flat_exact_partial fMap _ rfl), ?_⟩
+  exact extra_targets_exact (fCfg .all (.targets ["kw"])) fMap (fData fUnknown) _ none ["kw"] rfl
+    (show loadModel (fCfg .all (.targets ["kw"])) (.dict fMap .collect) (fData fUnknown) =
+      .ok [("a", .int 2), ("b", .int 3), ("c", .int 7), ("kw", .dict fUnknown)] none from rfl)
+    "kw" (by simp)
+
 /-- Full-strength statement about `ExtraKwargs` ("only unknown keys, under their original names, are
     passed as keyword arguments"):
     `∀ cfg crown data args ex, loadModel cfg crown data = .ok args (some (.dict ex)) →
@@ -519,6 +715,27 @@ theorem dump_writes_documented_path (sch : Schema) (style : Style → String →
   exact dumpCrown_writes_exact_path cfg l.crown obj out hmove hwf
     (outputLayout_gapsNone sch style fields l hl) hfields h p (.field f.id) hleaf hpne
 
+/-- **witness** for `dumpCrown_writes_exact_path` and `dump_writes_documented_path`, on the layout the provider built (`wOut_ok`), with its
+    well-formedness *proved* (`wOut_wf`): `b` at `x[3]` (dumper `n ↦ 10 n`), `d` omitted because its raw value 7
+    equals the default (while its dumped value 70 does not), `c_` kept although equal to a default that
+    omit_default does not select, the gap `x[2]` holds `None`. -/
+theorem dump_writes_documented_path_witness (mode : DebugTrail) :
+    dumpModel (wDumpCfg mode) wOut.crown wObj = .ok wDumped ∧
+    wDumped.getPath [.s "x", .i 3] = some (.int 20) ∧ wDumped.getPath [.s "d"] = none ∧
+    wDumped.getPath [.s "y", .s "c"] = some (.int 70) ∧ wDumped.getPath [.s "x", .i 2] = some .none := by
+  have hb := dump_writes_documented_path wSch wStyle wFields wOut wOut_ok (wDumpCfg mode) wObj wDumped rfl
+    (wOut_wf mode) (wOut_fields mode) (wDump_ok mode) { id := "b" } (by simp [wFields]) [.s "x", .i 3] (by simp) rfl
+  have hd := dump_writes_documented_path wSch wStyle wFields wOut wOut_ok (wDumpCfg mode) wObj wDumped rfl
+    (wOut_wf mode) (wOut_fields mode) (wDump_ok mode) { id := "d", required := true, default := some (.int 7) }
+    (by simp [wFields]) [.s "d"] (by simp) rfl
+  have hg := dumpCrown_writes_exact_path (wDumpCfg mode) wOut.crown wObj wDumped rfl (wOut_wf mode) rfl
+    (wOut_fields mode) (wDump_ok mode) [.s "x", .i 2] .none
+    (by simp [wOut, OutCrown.leaves, OutCrown.leaves.goD, OutCrown.leaves.goL]) (by simp)
+  refine ⟨wDump_ok mode, hb.trans ?_, hd.trans ?_, ?_, hg⟩
+  · simp [dumpedOf, wObj, Val.lookup, wDumpCfg, wOut, OutCrown.sieveAt, OutCrown.sieveAtD, OutCrown.sieveAtL]
+  · simp [dumpedOf, wObj, Val.lookup, wDumpCfg, wOut, OutCrown.sieveAt, List.lookup, sieveKeeps, Val.pyEq]
+  · simp [wDumped, Val.getPath, Val.getItem, Val.lookup]
+
 /-- **omit_default removes exactly the fields whose value equals their default** (code's comparison:
     identity for the singleton defaults None/True/False, `==` otherwise), for a field directly under a
     dict node: the key is present iff the field was extracted and its raw value differs from the default. -/
@@ -533,6 +750,17 @@ theorem omit_default_exact (cfg : DumpCfg) (obj vals : List (String × Val)) (m 
   | none => simp
   | some v =>
     by_cases hkeep : sieveKeeps dflt ((Val.lookup id obj).getD .none) = true <;> simp [hkeep]
+
+/-- witness: two sieved keys with default 3; `p = 3` is dropped, `q = 4` is written -/
+example : (∃ v, (dumpCrown (wDumpCfg .first) [("p", .int 3), ("q", .int 4)] [("p", .int 30), ("q", .int 40)]
+      (.dict [("P", .field "p"), ("Q", .field "q")] [("P", .int 3), ("Q", .int 3)])).getPath [.s "Q"] = some v) ∧
+    ¬ (∃ v, (dumpCrown (wDumpCfg .first) [("p", .int 3), ("q", .int 4)] [("p", .int 30), ("q", .int 40)]
+      (.dict [("P", .field "p"), ("Q", .field "q")] [("P", .int 3), ("Q", .int 3)])).getPath [.s "P"] = some v) := by
+  constructor
+  · rw [omit_default_exact _ _ _ _ _ "Q" "q" (.int 3) rfl (by simp) rfl]
+    simp [Val.lookup, sieveKeeps, Val.pyEq]
+  · rw [omit_default_exact _ _ _ _ _ "P" "p" (.int 3) rfl (by simp) rfl]
+    simp [Val.lookup, sieveKeeps, Val.pyEq]
 
 /-- the comparison of the sieve: a value is dropped iff it *is* the singleton default, resp. *equals*
     (Python `==`) the default -/
@@ -554,10 +782,88 @@ theorem dump_writes_only_crown_keys (cfg : DumpCfg) (obj vals : List (String × 
   obtain ⟨c, hc⟩ := dumpDict_keys_subset cfg obj vals s m k' v hmem
   exact List.mem_map.mpr ⟨(k', c), hc, rfl⟩
 
+example := dump_writes_only_crown_keys (wDumpCfg .first) wObj [("d", .int 70), ("a", .int 1)]
+  [("D", .field "d"), ("A", .field "a")] [("D", .int 7)] "A"
+  (by simp [dumpCrown, dumpDictReq, dumpDictOpt, Val.keys, isRequiredCrown, DumpCfg.field, wDumpCfg, wFields,
+        List.lookup, Val.lookup])
+
 /-- every gap of an output crown built by the layout provider carries the placeholder `None` -/
 theorem provider_gap_placeholders_are_none (sch : Schema) (style : Style → String → String) (fields : List Field)
     (l : OutLayout) (h : outputLayout sch style fields = .ok l) : l.crown.gapsNone = true :=
   outputLayout_gapsNone sch style fields l h
+
+example : wOut.crown.gapsNone = true := provider_gap_placeholders_are_none wSch wStyle wFields wOut wOut_ok
+
+/-! ### which keys carry an omit_default sieve (added by the audit) -/
+
+/-- **omit_default selects exactly the defaulted fields it matches**: the sieve table the provider computes
+    (`make_sieves`) binds a path to `d` iff a field leaf sits at that path whose field has the default `d` and is
+    matched by `omit_default`. -/
+theorem sieves_exact (sch : Schema) (fields : List Field) (leaves : List (Path × Leaf)) (p : Path) (d : Val) :
+    (p, d) ∈ makeSieves sch fields leaves ↔
+      ∃ id f, (p, Leaf.field id) ∈ leaves ∧ fields.find? (fun g => g.id == id) = some f ∧ f.default = some d ∧
+        sch.omitDefault f = true := by
+  unfold makeSieves
+  simp only [List.mem_filterMap]
+  constructor
+  · rintro ⟨⟨q, l⟩, hmem, h⟩
+    cases l with
+    | none => simp at h
+    | field id =>
+      simp only [] at h
+      cases hf : fields.find? (fun g => g.id == id) with
+      | none => simp [hf] at h
+      | some f =>
+        cases hd : f.default with
+        | none => simp [hf, hd] at h
+        | some d' =>
+          by_cases ho : sch.omitDefault f = true
+          · simp only [hf, hd, ho, ↓reduceIte, Option.some.injEq, Prod.mk.injEq] at h
+            obtain ⟨rfl, rfl⟩ := h
+            exact ⟨id, f, hmem, hf, hd, ho⟩
+          · simp [hf, hd, ho] at h
+  · rintro ⟨id, f, hmem, hf, hd, ho⟩
+    exact ⟨(p, .field id), hmem, by simp [hf, hd, ho]⟩
+
+example : makeSieves wSch wFields wLeaves = [([.s "d"], .int 7)] := rfl
+
+/-- **a sieve sits only where omit_default put it** (top-level keys of a dict layout built by the provider):
+    if the built output crown carries a sieve with default `d` at the key `k`, then a field leaf sits at `k`
+    whose field has the default `d` and is matched by `omit_default`. -/
+theorem out_sieve_sound_toplevel (sch : Schema) (style : Style → String → String) (fields : List Field)
+    (l : OutLayout) (h : outputLayout sch style fields = .ok l) (k : String) (d : Val)
+    (hs : l.crown.sieveAt [.s k] = some d) :
+    ∃ id f, ([Key.s k], Leaf.field id) ∈ l.crown.leaves ∧ fields.find? (fun g => g.id == id) = some f ∧
+      f.default = some d ∧ sch.omitDefault f = true := by
+  obtain ⟨lv, hlv, hmem⟩ := outputLayout_inv sch style fields l h
+  unfold outputLayout at h
+  simp only [bind, Except.bind, pure, Except.pure, hlv] at h
+  have key : ∀ crown : Crown, l.crown = crown.toOut (makeSieves sch fields lv) [] →
+      ∃ id f, ([Key.s k], Leaf.field id) ∈ l.crown.leaves ∧ fields.find? (fun g => g.id == id) = some f ∧
+        f.default = some d ∧ sch.omitDefault f = true := by
+    intro crown hcr
+    rw [hcr] at hs
+    cases crown with
+    | dict m =>
+      simp only [Crown.toOut, OutCrown.sieveAt, List.isEmpty_nil, ↓reduceIte, lookup_goS, List.nil_append] at hs
+      split at hs
+      · obtain ⟨id, f, h1, h2, h3, h4⟩ := (sieves_exact sch fields lv [.s k] d).mp (mem_of_lookup _ _ _ hs)
+        exact ⟨id, f, (hmem _).mpr h1, h2, h3, h4⟩
+      · simp at hs
+    | list m => simp [Crown.toOut, OutCrown.sieveAt] at hs
+    | leaf lf => cases lf <;> simp [Crown.toOut, OutCrown.sieveAt] at hs
+  split at h
+  · simp only [Except.ok.injEq] at h
+    exact key _ (by rw [← h])
+  · split at h
+    · simp at h
+    · simp only [Except.ok.injEq] at h
+      exact key _ (by rw [← h])
+
+/-- witness: the built layout carries the sieve of `d` (default 7, selected by omit_default), found by the theorem -/
+example : ∃ id f, ([Key.s "d"], Leaf.field id) ∈ wOut.crown.leaves ∧ wFields.find? (fun g => g.id == id) = some f ∧
+    f.default = some (.int 7) ∧ wSch.omitDefault f = true :=
+  out_sieve_sound_toplevel wSch wStyle wFields wOut wOut_ok "d" (.int 7) rfl
 
 /-- **List layouts fill gaps with `None`**: a list node is dumped to a list of exactly the length of
     the crown's map, whose positions that no field is mapped to hold the placeholder. -/
@@ -573,6 +879,41 @@ theorem list_gaps_are_none (cfg : DumpCfg) (obj vals : List (String × Val)) (m 
       | nil => rfl
       | cons c t ih => simp [dumpList, ih]
     simp [dumpCrown, Val.len, this]
+
+example := list_gaps_are_none (wDumpCfg .all) wObj [("a", .int 10)] [.none .none, .field "a", .none (.str "ph")] 2
+  (.str "ph") rfl
+
+/-! ### extra_out: the extractor's items are merged over the layout -/
+
+/-- **`extra_out=<extractor>`: `{**result, **extra}`.**  When the generated dumper with an extractor returning the
+    mapping `kvs` succeeds, the layout part `r` is a dict — the crown rendered over the extracted field values,
+    the very value the no-extra theorems above describe — and the result holds, for every key: the extractor's
+    (last) value if the extractor yields that key, otherwise what the layout wrote, otherwise nothing.  So every
+    extra item is delivered under its original name and no layout key is lost. -/
+theorem dump_extract_merges (cfg : DumpCfg) (crown : OutCrown) (obj : List (String × Val)) (out : Val)
+    (kvs : List (String × Val)) (hmove : cfg.move = .extract) (hex : cfg.extracted = .ok (.dict kvs))
+    (h : dumpModel cfg crown obj = .ok out) :
+    ∃ r res, dumpCrown cfg obj (specVals cfg obj (cfg.fields.filter fun f => crown.fieldIds.contains f.id)) crown = .dict r ∧
+      out = .dict res ∧ ∀ k, Val.lookup k res = (lookupLast k kvs).or (Val.lookup k r) := by
+  obtain ⟨r, hr, hout⟩ := dumpModel_ok_extract cfg crown obj out kvs hmove hex h
+  exact ⟨r, mergeDict r kvs, hr, hout, fun k => lookup_mergeDict k kvs r⟩
+
+/-- witness: the extractor adds `extra1` and overrides the layout's key `y`; `x` is kept, the sieved `d` stays out -/
+example :
+    let cfg : DumpCfg :=
+      { wDumpCfg .first with move := .extract, extracted := .ok (.dict [("extra1", .int 1), ("y", .str "over")]) }
+    let out : List (String × Val) :=
+      [("x", .list [.none, .int 10, .none, .int 20]), ("y", .str "over"), ("extra1", .int 1)]
+    dumpModel cfg wOut.crown wObj = .ok (.dict out) ∧
+    ∃ r res, dumpCrown cfg wObj (specVals cfg wObj (cfg.fields.filter fun f => wOut.crown.fieldIds.contains f.id))
+        wOut.crown = .dict r ∧ Val.dict out = .dict res ∧
+      ∀ k, Val.lookup k res = (lookupLast k [("extra1", .int 1), ("y", .str "over")]).or (Val.lookup k r) := by
+  intro cfg out
+  have hrun : dumpModel cfg wOut.crown wObj = .ok (.dict out) := by
+    simp [cfg, out, dumpModel, wDumpCfg, wOut, wObj, wFields, OutCrown.fieldIds, OutCrown.fieldIds.goD,
+      OutCrown.fieldIds.goL, OutExtraMove.targetIds, extractFields, extractOne, Val.lookup, dumpCrown, dumpDictReq,
+      dumpDictOpt, dumpList, isRequiredCrown, DumpCfg.field, sieveKeeps, Val.pyEq, List.lookup, mergeExtra, mergeDict]
+  exact ⟨hrun, dump_extract_merges cfg wOut.crown wObj _ _ rfl rfl hrun⟩
 
 /-! ## 6. Loader and dumper agree on the paths -/
 
@@ -634,6 +975,19 @@ theorem dump_load_roundtrip (cfgL : LoadCfg) (cfgD : DumpCfg) (crown : OutCrown)
   apply List.map_congr_left
   intro id hid
   rw [hlook id hid]
+
+/-- **witness** (every debug mode, strict and lax, every extra policy incl. ExtraForbid): a nested crown with a
+    gap, three fields, an object that also holds fields the crown does not use -/
+theorem dump_load_roundtrip_witness (mode : DebugTrail) (strict : Bool) (pol : Policy) :
+    ∃ out, dumpModel rtD rtCrown wObj = .ok out ∧
+      loadModel (rtL mode strict) (rtCrown.toInpCrown pol) out =
+        .ok [("a", .int 1), ("b", .int 2), ("c_", .int 7)] none := by
+  obtain ⟨out, h1, h2⟩ := dump_load_roundtrip (rtL mode strict) rtD rtCrown pol wObj (fun _ _ => rfl) (fun _ _ => rfl)
+    rfl rfl rfl rfl ⟨rfl, fun ph h => by cases h⟩
+    (rtCrown_ids _ (by simp [rtD, wFields]) (by simp [rtD, wFields]) (by simp [rtD, wFields]))
+    (rtCrown_ids _ (by simp [wObj, Val.lookup]) (by simp [wObj, Val.lookup]) (by simp [wObj, Val.lookup]))
+  refine ⟨out, h1, h2.trans ?_⟩
+  simp [rtCrown, OutCrown.fieldIds, OutCrown.fieldIds.goD, OutCrown.fieldIds.goL, wObj, Val.lookup]
 
 /-! ## 7. Non-vacuity: concrete programs evaluated by the kernel -/
 
